@@ -692,4 +692,170 @@ theorem strtok_rOrig_witness :
     (strtok_rOrig (ofBufs [(8, [44#8, 0#8]), (16, [44#8, 0#8])]) (some 8) 16 (some 99) 10).map (·.2.1)
       = some (some 99) := by decide
 
+
+/-! ### strstr / strcasestr — first position at which the needle is a prefix of
+the rest of the haystack (for strcasestr: after the C-locale `tolower`) -/
+
+/-- empty needle ⇒ the haystack itself; the haystack is not even read -/
+theorem strstr_empty_needle (m : Mem) (haystack needle fuel : Nat) (h : m needle = some 0#8) :
+    strstr m haystack needle fuel = some (some haystack) := by
+  simp [strstr, strstrF, h]
+
+theorem strcasestr_empty_needle (m : Mem) (haystack needle fuel : Nat) (h : m needle = some 0#8) :
+    strcasestr m haystack needle fuel = some (some haystack) := by
+  simp [strcasestr, strstrF, h]
+
+/-- `l = p ++ nd ++ r` and the needle occurs at no earlier position ⇒ `haystack + |p|` -/
+theorem strstr_found (m : Mem) (haystack needle : Nat) (nd p r : List Byte) (fuel : Nat)
+    (hH : CStr m haystack (p ++ nd ++ r)) (hN : CStr m needle nd) (hne : nd ≠ [])
+    (hfirst : ∀ i, i < p.length → ¬ nd <+: (p ++ nd ++ r).drop i)
+    (hf : (p ++ nd ++ r).length < fuel) :
+    strstr m haystack needle fuel = some (some (haystack + p.length)) := by
+  obtain ⟨b, nd', rfl⟩ : ∃ b nd', nd = b :: nd' := by
+    cases nd with
+    | nil => exact absurd rfl hne
+    | cons b t => exact ⟨b, t, rfl⟩
+  obtain ⟨n1, n2, _⟩ := cstr_cons.mp hN
+  rw [List.append_assoc] at hH hfirst hf
+  have := strstrOuter_found id hf0_id m (b :: nd') needle fuel hN hne p ((b :: nd') ++ r) haystack fuel hH
+    ((matchAt_id_iff _ _).mpr (List.prefix_append _ _))
+    (fun i hi hm => hfirst i hi ((matchAt_id_iff _ _).mp hm)) hf (by simp at hf; omega)
+  simp [strstr, strstrF, n1, n2, this]
+
+/-- the needle occurs nowhere ⇒ NULL -/
+theorem strstr_absent (m : Mem) (haystack needle : Nat) (nd l : List Byte) (fuel : Nat)
+    (hH : CStr m haystack l) (hN : CStr m needle nd) (hne : nd ≠ [])
+    (hno : ∀ i, i < l.length → ¬ nd <+: l.drop i) (hf : l.length < fuel) :
+    strstr m haystack needle fuel = some none := by
+  obtain ⟨b, nd', rfl⟩ : ∃ b nd', nd = b :: nd' := by
+    cases nd with
+    | nil => exact absurd rfl hne
+    | cons b t => exact ⟨b, t, rfl⟩
+  obtain ⟨n1, n2, _⟩ := cstr_cons.mp hN
+  have := strstrOuter_none id hf0_id m (b :: nd') needle fuel hN l haystack fuel hH
+    (fun i hi hm => hno i hi ((matchAt_id_iff _ _).mp hm)) hf hf
+  simp [strstr, strstrF, n1, n2, this]
+
+theorem strcasestr_found (m : Mem) (haystack needle : Nat) (nd p mid r : List Byte) (fuel : Nat)
+    (hH : CStr m haystack (p ++ mid ++ r)) (hN : CStr m needle nd) (hne : nd ≠ [])
+    (hmid : mid.map lowerB = nd.map lowerB)
+    (hfirst : ∀ i, i < p.length → ¬ nd.map lowerB <+: ((p ++ mid ++ r).drop i).map lowerB)
+    (hf : (p ++ mid ++ r).length < fuel) :
+    strcasestr m haystack needle fuel = some (some (haystack + p.length)) := by
+  obtain ⟨b, nd', rfl⟩ : ∃ b nd', nd = b :: nd' := by
+    cases nd with
+    | nil => exact absurd rfl hne
+    | cons b t => exact ⟨b, t, rfl⟩
+  obtain ⟨n1, n2, _⟩ := cstr_cons.mp hN
+  rw [List.append_assoc] at hH hfirst hf
+  have := strstrOuter_found tolowerI hf0_lower m (b :: nd') needle fuel hN hne p (mid ++ r) haystack fuel hH
+    ((matchAt_lower_iff _ _).mpr (by rw [List.map_append, hmid]; exact List.prefix_append _ _))
+    (fun i hi hm => hfirst i hi ((matchAt_lower_iff _ _).mp hm)) hf (by simp at hf; omega)
+  simp [strcasestr, strstrF, n1, n2, this]
+
+theorem strcasestr_absent (m : Mem) (haystack needle : Nat) (nd l : List Byte) (fuel : Nat)
+    (hH : CStr m haystack l) (hN : CStr m needle nd) (hne : nd ≠ [])
+    (hno : ∀ i, i < l.length → ¬ nd.map lowerB <+: (l.drop i).map lowerB) (hf : l.length < fuel) :
+    strcasestr m haystack needle fuel = some none := by
+  obtain ⟨b, nd', rfl⟩ : ∃ b nd', nd = b :: nd' := by
+    cases nd with
+    | nil => exact absurd rfl hne
+    | cons b t => exact ⟨b, t, rfl⟩
+  obtain ⟨n1, n2, _⟩ := cstr_cons.mp hN
+  have := strstrOuter_none tolowerI hf0_lower m (b :: nd') needle fuel hN l haystack fuel hH
+    (fun i hi hm => hno i hi ((matchAt_lower_iff _ _).mp hm)) hf hf
+  simp [strcasestr, strstrF, n1, n2, this]
+
+
+/-! ### strncat — `c` is what gets appended: the first `min(n, strlen(s2))`
+characters of the source (either `n` characters, and then nothing after them
+is read, or fewer followed by the source's terminator) -/
+
+theorem strncat_eq_simple_loop (m : Mem) (s1 s2 n fuel e : Nat) (he : scanNul m fuel s1 = some e) :
+    strncat m s1 s2 n fuel = (strncatTail n m (e - 2) s2 0).map fun m' => (m', s1) := by
+  unfold strncat
+  simp only [he, bind, Option.bind]
+  by_cases h4 : n ≥ 4
+  · rw [if_pos h4]
+    have hn : n = 4 * (n / 4 - 1 + 1) + n % 4 := by omega
+    conv => rhs; rw [hn, strncat4_eq_tail]
+    cases strncat4 (n / 4 - 1) m (e - 2) s2 with
+    | none => rfl
+    | some x =>
+      obtain ⟨m', res⟩ := x
+      cases res with
+      | none => rfl
+      | some t =>
+        obtain ⟨a, b, c⟩ := t
+        simp only [Option.bind, Option.map, pure]
+        cases strncatTail (n % 4) m' a b c <;> rfl
+  · rw [if_neg h4]
+    simp only [Option.map, pure]
+    cases strncatTail n m (e - 2) s2 0 <;> rfl
+
+theorem strncat_spec (m : Mem) (s1 s2 : Nat) (a c : List Byte) (n fuel : Nat) (hdest : 0 < s1)
+    (ha : CStr m s1 a) (hs : Holds m s2 c) (h0 : 0#8 ∉ c) (hn : c.length ≤ n)
+    (hend : c.length < n → m (s2 + c.length) = some 0#8)
+    (hd : Mapped m (s1 + a.length) (c.length + 1))
+    (hdis : Disjoint s1 (a.length + c.length + 1) s2 (c.length + 1)) (hf : a.length < fuel) :
+    ∃ m', strncat m s1 s2 n fuel = some (m', s1) ∧ Holds m' s1 (a ++ c ++ [0#8]) ∧
+      SameOutside m m' (s1 + a.length) (c.length + 1) := by
+  have e1 := scanNul_spec m a s1 fuel ha hf
+  have ew : s1 + a.length + 1 - 2 + 1 = s1 + a.length := by omega
+  have hnul : m (s1 + a.length) = some 0#8 := by
+    have := (holds_append.mp ha.1).2; rw [holds_cons] at this; exact this.1
+  unfold Disjoint at hdis
+  obtain ⟨m', e, hh, ho⟩ := strncatTail_spec c n m (s1 + a.length + 1 - 2) s2 0 hs h0 hn hend
+    (Or.inr (by rw [ew]; exact hnul)) (by rw [ew]; exact hd) (by rw [ew]; unfold Disjoint; omega)
+  rw [ew] at hh ho
+  refine ⟨m', by rw [strncat_eq_simple_loop m s1 s2 n fuel _ e1, e]; rfl, ?_, ho⟩
+  rw [List.append_assoc, holds_append]
+  exact ⟨holds_of_sameOutside (cstr_prefix_holds (r := []) (by simpa using ha)).1 ho (by omega), hh⟩
+
+
+/-! ### non-vacuity: the hypotheses used above are satisfiable (concrete memories) -/
+
+example : CStr exMem 8 [97#8, 98#8, 99#8] := by
+  constructor
+  · intro i hi
+    have : i = 0 ∨ i = 1 ∨ i = 2 ∨ i = 3 := by simp at hi; omega
+    rcases this with rfl | rfl | rfl | rfl <;> decide
+  · decide
+
+example : Holds exMem 32 [1#8, 2#8, 3#8, 4#8, 5#8, 6#8] := by
+  intro i hi
+  have : i = 0 ∨ i = 1 ∨ i = 2 ∨ i = 3 ∨ i = 4 ∨ i = 5 := by simp at hi; omega
+  rcases this with rfl | rfl | rfl | rfl | rfl | rfl <;> decide
+
+example : Mapped exMem 32 6 := by
+  intro i hi
+  have : i = 0 ∨ i = 1 ∨ i = 2 ∨ i = 3 ∨ i = 4 ∨ i = 5 := by omega
+  rcases this with rfl | rfl | rfl | rfl | rfl | rfl <;> decide
+
+example : Disjoint 32 4 8 4 := by unfold Disjoint; omega
+
+/-- memmove's hypotheses hold for an overlapping pair (dst = src + 2 inside the
+6-byte object), and the model's run agrees with the theorem's conclusion -/
+example : (memmove exMem 34 32 4).map (fun r => (r.2, readOut r.1 32 6)) =
+    some (34, some [1#8, 2#8, 1#8, 2#8, 3#8, 4#8]) := by decide
+
+/-- forward overlap (dst below src) goes through memcpy -/
+example : (memmove exMem 32 33 5).map (fun r => readOut r.1 32 6) =
+    some (some [2#8, 3#8, 4#8, 5#8, 6#8, 6#8]) := by decide
+
+/-- the first-occurrence decomposition used by memchr/strchr: `98 ∉ [97]` -/
+example : ([97#8, 98#8, 99#8] : List Byte) = [97#8] ++ 98#8 :: [99#8] ∧ (98#8 : Byte) ∉ [97#8] := by decide
+
+/-- the access-range reading of the theorems: with only "abc\0" mapped, strlen
+succeeds; with the terminator unmapped it faults -/
+example : strlen (ofBufs [(8, [97#8, 98#8, 99#8, 0#8])]) 8 10 = some 3 := by decide
+example : strlen (ofBufs [(8, [97#8, 98#8, 99#8])]) 8 10 = none := by decide
+
+/-- an allocator satisfying `AllocOk` (the driver's `mallocAt` has this shape) -/
+example (m : Mem) (n : Nat) :
+    AllocOk m (fun a => if 64 ≤ a ∧ a < 64 + n then some 0xA5#8 else m a) 64 n := by
+  constructor
+  · intro i hi; simp [hi]
+  · intro j hj; simp only; rw [if_neg hj]
+
 end Igris.C08
